@@ -145,6 +145,13 @@ def gen_cases(tier, seed):
         args = ["--driver", driver, "-w", str(r.choice([1, 2, 4]))] + (["--no-progress"] if bsel[1] is None else ["--block-size", str(bsel[1])]) + ["src/f0", "dst"]
         yield {"xdev": True, "fs": ["ext4", "tmpfs"][(i // 2) % 2], "spec": [{"p": "src", "k": "d"}, f], "pre": [], "args": args, "single": True, "prior": "absent", "driver": driver,
                "block": bsel[0], "bsv": bsel[1], "workers": 4, "sched": "os", "sseed": 1}
+    # regular files that report a length of 0 although they have content (the kernel's own: /proc, /proc/sys): "exactly the
+    # source's bytes" still applies to them
+    for i, path in enumerate(["/proc/version", "/proc/filesystems", "/proc/sys/kernel/ostype", "/proc/version"] if os.path.exists("/proc/version") else []):
+        for driver in ("parfile", "parblock"):
+            blk = [["--block-size", "4096"], ["--no-progress"], ["--block-size", "1MB"], ["--block-size", "7"]][i]
+            yield {"unsized": path, "fs": ["ext4", "tmpfs"][i % 2], "driver": driver, "block": blk[-1], "prior": ["absent", "longer"][i % 2],
+                   "args": ["--driver", driver, "-w", str(r.choice([1, 4]))] + blk + ([] if i < 3 else ["--reflink", "never"]) + [path, "dst"]}
     if tier == "thorough":
         # one file larger than a single kernel copy request (2 GiB - 4 KiB), both drivers, --no-progress and 1MB blocks
         for driver in ("parblock", "parfile"):
@@ -170,8 +177,34 @@ def write_stamped(path, size, seed):
             i += 1
 
 
+def run_unsized(case, res):
+    with core.Sandbox(case["fs"], "c01") as sb:
+        if case["prior"] == "longer":
+            with open(os.path.join(sb.root, "dst"), "wb") as f:
+                f.write(b"previous content " * 4000)
+        run = core.run_plain(core.xcp_argv(list(case["args"])), sb.root, timeout=120)
+        if run.verdict != "exited":
+            res["inconc"].append("run-" + run.verdict)
+            return res
+        if not run.exit0:
+            res["counters"]["nonzero-exit"] = 1
+            return res
+        want = open(case["unsized"], "rb").read()
+        got = open(os.path.join(sb.root, "dst"), "rb").read()
+        if got != want:
+            res["viol"].append({"sig": "%s:unsized:%s" % (case["driver"], "size" if len(got) != len(want) else "bytes"),
+                                "what": "exit 0 but the copy of %s holds %d bytes, reading the source gives %d; args=%s" % (case["unsized"], len(got), len(want), " ".join(case["args"]))})
+        res["counters"]["exit0"] = 1
+        res["counters"]["unsized-sources"] = 1
+        res["evals"].append({"key": [case["driver"], case["block"], "unsized", case["unsized"], case["prior"], case["fs"]],
+                             "sample": {"args": case["args"], "source_bytes": len(want), "stat_size": os.stat(case["unsized"]).st_size}})
+    return res
+
+
 def run_case(case):
     res = {"evals": [], "viol": [], "inconc": [], "counters": {}}
+    if case.get("unsized"):
+        return run_unsized(case, res)
     with core.Sandbox(case["fs"], "c01") as sb:
         spec = [e for e in case["spec"] if not e.get("stamp")]
         # cross-device cases: the sources live on the other filesystem and are named by absolute path
